@@ -74,10 +74,14 @@ def work(part, nprog):
     import cubed
     from cubed.core.plan import arrays_to_plan
 
-    spec = cubed.Spec(allowed_mem="500MB")
+    import zarr
     k = 0
     while k < nprog:
         prog = G.gen_program(part.rng, nstmts=part.rng.randint(2, 7), allow_zero=False)
+        pattern = part.rng.random() < 0.25
+        if pattern:
+            prog = G.gen_pattern_program(part.rng)
+        spec = cubed.Spec(allowed_mem="500MB", intermediate_store=zarr.storage.MemoryStore())
         try:
             env = G.build(prog, spec)
         except Exception:
@@ -87,6 +91,8 @@ def work(part, nprog):
         plan = arrays_to_plan(*outs)
         dag = plan.dag
         st = settings(part.rng, dag)
+        if pattern and part.rng.random() < 0.4:
+            st = dict(kind="simple", ms=4, mn=10, af=[], nf=[])
         ops0, virt0 = abstract(dag)
         order = op_order(dag)
         req = [nid(a) for a in plan.array_names]
@@ -103,7 +109,11 @@ def work(part, nprog):
         cfg = f"(CFG {cnatlist(req)} {st['ms']} {'None' if st['mn'] is None else '(Some %d)' % st['mn']} {cnatlist(st['af'])} {cnatlist(st['nf'])})"
         d0 = dag_term(ops0, virt0)
         d1 = dag_term(ops1s, virt0)
-        if st["kind"] != "simple":
+        if st["kind"] == "simple":
+            sorder = [nid(n) for n in dag.nodes() if n.startswith("op-")]
+            part.case("opt", {"expr": f"dag_eqb (simple_optimize unit {cnatlist(req)} {cnatlist(sorder)} {d0}) {d1}", "desc": desc,
+                              "show": f"first_diff (dops unit (simple_optimize unit {cnatlist(req)} {cnatlist(sorder)} {d0})) (dops unit {d1})"})
+        else:
           part.case("opt", {"expr": f"dag_eqb (optimize unit {cfg} {cnatlist(order)} {d0}) {d1}", "desc": desc,
                           "show": f"first_diff (dops unit (optimize unit {cfg} {cnatlist(order)} {d0})) (dops unit {d1})"})
         fused = len(ops1) < len(ops0)
@@ -116,7 +126,11 @@ def work(part, nprog):
         # ---- oracle: values with and without optimization -----------------------------
         part.evaluations += 1
         try:
-            ref = cubed.compute(*outs, optimize_graph=False)
+            # the reference run uses its own build over its own store: a requested array that the
+            # optimizer fuses away must not be found in storage left behind by another run
+            import zarr
+            env_ref = G.build(prog, cubed.Spec(allowed_mem="500MB", intermediate_store=zarr.storage.MemoryStore()))
+            ref = cubed.compute(*[env_ref[o] for o in prog["outs"]], optimize_graph=False)
         except Exception:
             part.count("unoptimized-run-failed")   # C17's business
             continue
